@@ -191,11 +191,29 @@ type encArgs struct {
 	Input  []byte `json:"input"` // a valid stream; its reference tokens are replayed
 	Mode   uint64 `json:"mode"`  // bit i set: write the value starting at token i with WriteValue
 	Sparse int    `json:"sparse,omitempty"`
+	Fault  int    `json:"fault,omitempty"` // > 0: every Fault-th Write of the underlying writer is short and fails
 }
 
-type limitedWriter struct{ buf bytes.Buffer }
+// limitedWriter is an opaque writer; with faultEvery > 0 every faultEvery-th Write accepts only
+// the first half of what it is offered and reports an error (write errors are documented as not
+// fatal for an Encoder: the token stays accepted and the offsets keep counting what was produced).
+type limitedWriter struct {
+	buf        bytes.Buffer
+	faultEvery int
+	calls      int
+}
 
-func (l *limitedWriter) Write(p []byte) (int, error) { return l.buf.Write(p) }
+var errInjectedWrite = errors.New("injected write fault")
+
+func (l *limitedWriter) Write(p []byte) (int, error) {
+	l.calls++
+	if l.faultEvery > 0 && l.calls%l.faultEvery == 0 {
+		n := len(p) / 2
+		l.buf.Write(p[:n])
+		return n, errInjectedWrite
+	}
+	return l.buf.Write(p)
+}
 
 func runEncoderPositions(w *run.W, a *encArgs) {
 	w.Eval(1)
@@ -203,9 +221,12 @@ func runEncoderPositions(w *run.W, a *encArgs) {
 	if errOff >= 0 || !complete {
 		return // generator only emits valid streams; mutated ones are skipped
 	}
-	var out limitedWriter
+	out := limitedWriter{faultEvery: a.Fault}
 	e := jsontext.NewEncoder(&out)
 	sig := map[string]string{"coder": "encoder"}
+	if a.Fault > 0 {
+		sig["writer"] = "faulty"
+	}
 	var expect []byte // independent compact serialization of what has been written
 	// need tracks whether a comma/colon is due
 	type fr struct {
@@ -289,6 +310,10 @@ func runEncoderPositions(w *run.W, a *encArgs) {
 				err = e.WriteToken(tok)
 			}
 		}
+		if err != nil && a.Fault > 0 && errors.Is(err, errInjectedWrite) {
+			err = nil // the token was accepted; only the flush failed
+			w.Count("encoder_calls_with_injected_write_fault", 1)
+		}
 		if err != nil {
 			w.Violate("spurious-error", sig, "writing token %d (%c) failed: %v; input=%q", ti, t.Kind, err, a.Input)
 			return
@@ -316,7 +341,12 @@ func runEncoderPositions(w *run.W, a *encArgs) {
 		}
 		w.Count("encoder_states_compared", 1)
 	}
-	if !bytes.Equal(out.buf.Bytes(), expect) {
+	if a.Fault > 0 {
+		// what the writer holds is a prefix (the rest is still buffered); C07 checks the bytes
+		if !bytes.HasPrefix(expect, out.buf.Bytes()) {
+			w.Violate("output-bytes", sig, "faulty writer received %q, which is not a prefix of the independent serialization %q", run.Trunc(out.buf.String(), 300), run.Trunc(string(expect), 300))
+		}
+	} else if !bytes.Equal(out.buf.Bytes(), expect) {
 		w.Violate("output-bytes", sig, "encoder wrote %q, independent serialization %q", run.Trunc(out.buf.String(), 300), run.Trunc(string(expect), 300))
 	}
 	w.Shape(fmt.Sprintf("enc|%x|%x", hash(a.Input), a.Mode))
@@ -559,12 +589,37 @@ type semArgs struct {
 	Seed uint64 `json:"seed"`
 }
 
+// errFrom fails before it has consumed anything: the error belongs to the value that is next.
+type errFrom struct{ X int }
+
+func (*errFrom) UnmarshalJSONFrom(*jsontext.Decoder) error { return errors.New("errFrom never accepts") }
+
+// types whose every value is refused BEFORE it is read (unsupported kinds, a method that fails at once)
+var refusedBeforeTypes = []reflect.Type{reflect.TypeFor[errFrom](), reflect.TypeFor[chan int](), reflect.TypeFor[func()](), reflect.TypeFor[complex128](), reflect.TypeFor[*errFrom]()}
+
+func refusedBefore(t reflect.Type) bool {
+	for _, x := range refusedBeforeTypes {
+		if t == x {
+			return true
+		}
+	}
+	return false
+}
+
+var genSpecialUsed bool // per generated type: at most one refused-before leaf type
+
 func genType(r *rand.Rand, depth int) reflect.Type {
+	if depth == 0 {
+		genSpecialUsed = false
+	}
 	k := r.IntN(10)
 	if depth >= 4 {
 		k = r.IntN(3)
 	}
 	switch {
+	case k < 3 && depth > 0 && !genSpecialUsed && r.IntN(10) == 0:
+		genSpecialUsed = true
+		return refusedBeforeTypes[r.IntN(len(refusedBeforeTypes))]
 	case k < 3:
 		return []reflect.Type{reflect.TypeFor[int](), reflect.TypeFor[int8](), reflect.TypeFor[uint16](), reflect.TypeFor[bool](), reflect.TypeFor[string](), reflect.TypeFor[float32](), reflect.TypeFor[[]byte](), reflect.TypeFor[[2]byte]()}[r.IntN(8)]
 	case k < 5:
@@ -590,15 +645,19 @@ func genType(r *rand.Rand, depth int) reflect.Type {
 }
 
 type leaf struct {
-	ptr string
-	t   reflect.Type
+	ptr       string
+	t         reflect.Type
+	alwaysBad bool // every JSON value is refused at this leaf, before it is read
 }
 
 func build(r *rand.Rand, t reflect.Type, ptr string, leaves *[]leaf) string {
-	ws := func() string { return []string{"", "", " ", "\n "}[r.IntN(4)] }
+	ws := func() string { return []string{"", "", " ", "\n ", " \t\r\n ", "   "}[r.IntN(6)] }
 	mark := func() string {
-		*leaves = append(*leaves, leaf{ptr: ptr, t: t})
+		*leaves = append(*leaves, leaf{ptr: ptr, t: t, alwaysBad: refusedBefore(t)})
 		return fmt.Sprintf("\x00%d\x00", len(*leaves)-1)
+	}
+	if refusedBefore(t) {
+		return mark()
 	}
 	switch t.Kind() {
 	case reflect.Slice:
@@ -658,6 +717,9 @@ func goodValue(t reflect.Type) string {
 
 func badValue(r *rand.Rand, t reflect.Type) string {
 	pick := func(s ...string) string { return s[r.IntN(len(s))] }
+	if refusedBefore(t) {
+		return pick(`1`, `"x"`, `[1, 2]`, `{"a":1}`, `true`)
+	}
 	switch t.Kind() {
 	case reflect.Bool:
 		return pick(`1`, `"true"`, `[]`, `{}`)
@@ -687,6 +749,13 @@ func runSemantic(w *run.W, a *semArgs) {
 	}
 	w.Eval(1)
 	bi := r.IntN(len(leaves))
+	for j := range leaves {
+		if leaves[j].alwaysBad { // the first such leaf in document order is where decoding stops
+			bi = j
+			w.Count("semantic_refused_before_value", 1)
+			break
+		}
+	}
 	text := tmpl
 	off := -1
 	var bv string
@@ -809,6 +878,7 @@ func generate(w *run.W) {
 			w.Do("decoder-positions", &posArgs{Input: in, Script: scripts[r.IntN(len(scripts))], Chunk: []int{0, 1, 2, 7, 64}[r.IntN(5)], Inv: inv, Dup: r.IntN(4) == 0, Sparse: []int{0, 0, 4, 1000}[r.IntN(4)]})
 			if _, ok := ref.StreamValid(in, ref.Opts{}); ok {
 				w.Do("encoder-positions", &encArgs{Input: in, Mode: r.Uint64() & r.Uint64(), Sparse: []int{0, 0, 5, 1000}[r.IntN(4)]})
+				w.Do("encoder-positions", &encArgs{Input: in, Mode: r.Uint64() & r.Uint64(), Sparse: []int{0, 5}[r.IntN(2)], Fault: 1 + r.IntN(4)})
 			}
 			// invalid: mutate 1-3 times
 			bad := in
